@@ -10,6 +10,7 @@ LAYOUT = [
         "alpha_test.go": ["TestAlpha", "TestAlphaBeta", "TestAl"],
         "beta_test.go": ["TestBeta", "TestB", "Test_x"],
         "gamma_test.go": ["TestGamma", "TestGamma2"],
+        "dotted.v2_test.go": ["TestDotted"],
     }),
     ("sub", "sub", {"sub_test.go": ["TestSub", "TestSubAlpha"]}),
     ("sub/deep/er", "er", {"er_test.go": ["TestEr", "TestAlpha"]}),
@@ -167,7 +168,7 @@ def write_scn(dst, repo):
         os.makedirs(d, exist_ok=True)
         pkgs.append(rel)
         for fname, tests in files.items():
-            suf = "".join(p.capitalize() for p in fname.replace("_test.go", "").split("_"))
+            suf = "".join(p.capitalize() for p in fname.replace("_test.go", "").replace(".", "_").split("_"))
             tsrc = "".join("func %s(t *testing.T) { run%s(t) }\n\n" % (t, suf) for t in tests)
             with open(os.path.join(d, fname), "w") as f:
                 f.write(TEST_FILE.format(pkg=pkg, suf=suf, tests=tsrc, extra=EXTRA_FUNCS.get(fname, "")))
